@@ -24,6 +24,19 @@ tie    : (a) harness/c04.cpp calls BOTH overloads of the real compute_shortest_d
          (dk_class: which heap situation every decrease_key call meets) and the ones with the rare situations
          (a non-minimal ROOT lowered below the minimum, a child cut below the minimum, ...) are added to every run;
          (d) a labelled TOLERANCE stream: generic 53-bit double weights, observed vs exact shortest paths, 1e-12.
+         (e) magnitudes: every generator of (a), (c), (d) and the distance callback of (b) are multiplied by powers of
+         two from 2^-70 to 2^70 (exact in binary64; the models keep the integer table, legitimate by the
+         scale-equivariance theorems of Dijkstra_Scale.v), and a share of the tables mixes magnitudes 2^36 apart:
+         weights and improvements far below 1e-12 in absolute terms while far apart relatively, so that an absolute
+         tolerance anywhere in the relax / pop / stale-entry comparisons, an absolute eigenvalue cut-off or a
+         float-typed temporary gives a concrete failing input; the observations of (b) are divided by 2^e, 2^2e, 2^e
+         (exact) and judged as before.
+         (f) ONE large cheap case per run: is_connected and the landmark overload on the path graph with N = 10^6,
+         k = 2 (four landmarks), on a thread with an explicit 8 MiB stack, both heap builds (plus N = 1500 with the
+         first overload and N = 40 through the extracted specification): a crash (stack overflow by recursion
+         proportional to N, out of memory), a hang or a wrong row is a violation with that input.  The
+         recursion-depth / memory obligations of the pipeline are tied ONLY by this run (the models of this slice
+         and of C03 are loops / structural recursion and say nothing about the C++ call stack).
 search : when a proof obligation or the correspondence breaks (or a call trace differs): all graphs with
          (N,K) in {(2,1),(2,2),(3,1)} and edge weights {0,1,2}; 12000 more model-screened candidates; five times the
          random budget straight against the extracted spec, small graphs first; failing graphs are shrunk
@@ -62,6 +75,13 @@ TRUSTED = [
     "methods/isomap.hpp and methods/landmark_isomap.hpp record and forward (harness/c04.cpp)",
     "extraction (ExtrOcamlBasic only) + OCaml 4.13.1 + coq/extract/c04_driver.ml (parsing/printing)",
     "g++ ASan/UBSan/_GLIBCXX_ASSERTIONS as memory-safety observer of the real runs",
+    "multiplication of a weight table by 2^e, |e| <= 70 + 53, is exact in binary64 (no overflow / underflow: all "
+    "values stay within 2^-200 .. 2^200); the models run on the integer table, justified by "
+    "geodesic_spec_scale_equivariant / dijkstra_scale_equivariant / isomap_matrix_scale_equivariant (Coq) — that "
+    "binary64 realises this exactly is IEEE-754, not proved here",
+    "stack depth / memory for large N are not modelled: tied only by the run of the path graph with N = 10^6 (k = 2) "
+    "through is_connected and the landmark overload on a thread with an 8 MiB stack; its expected output is the "
+    "closed form |l - j| * 2^e, validated against the extracted specification on the N = 40 member of the family",
 ]
 
 ASSUMPTIONS = [
@@ -439,7 +459,8 @@ def evaluate_big(ctx, exes, cases, stats):
         model = parse_block(blk)
         N, nl = c["N"], len(c["lm"])
         ref, lref = model.get("full pq0"), model.get("land pq0", [])
-        if model.get("full fibc") != ref or (nl and model.get("land fibc") != lref):
+        if (model.get("full fibc") != ref or (nl and model.get("land fibc") != lref)
+                or model.get("full pqc") != ref or (nl and model.get("land pqc") != lref)):
             ctx.mismatch(strip(c), "the two extracted Dijkstra models disagree on a big graph")
         klines = []
         for key, r in o.items():
@@ -637,8 +658,9 @@ def parse_model_mat(rest):
     return [vals[i * c:(i + 1) * c] for i in range(r)]
 
 
-MODEL_TAGS = ("full pq0", "full pq1", "full fib0", "full fib1", "full fibc", "land pq0", "land fib0", "land fib1",
-              "land fibc", "landold fib0", "landsp", "sp", "row", "trace fibc", "ltrace fibc")
+MODEL_TAGS = ("full pq0", "full pq1", "full fib0", "full fib1", "full fibc", "full pqc", "land pq0", "land fib0",
+              "land fib1", "land fibc", "land pqc", "landold fib0", "landsp", "sp", "row", "trace fibc", "ltrace fibc",
+              "trace pqc", "ltrace pqc")
 
 
 def parse_block(blk):
@@ -743,7 +765,7 @@ def observe_sp(ctx, exes, cases, trace=True, only=None, timeout=None):
                 lines.append(sp_line(c, t, 0))
                 keys.append((ci, (b, t)))
         for ci, c in enumerate(cases):
-            if trace and (c.get("tiefree") or b == "fib") and c["N"] <= 64:
+            if trace and c["N"] <= 64:
                 lines.append(sp_line(c, 1, 1))
                 keys.append((ci, (b, "trace")))
         if lines:
@@ -823,13 +845,13 @@ def evaluate_sp(ctx, exes, cases, stats, shrink=True):
         for i, x in enumerate(model.get("events", [])):
             stats["heap_decrease_key_situations"][HEAP_CLASSES[i]] += x
         # (i) theorem instances on this input: every model variant equals the specification
-        for k in ("full pq0", "full pq1", "full fib0", "full fib1", "full fibc"):
+        for k in ("full pq0", "full pq1", "full fib0", "full fib1", "full fibc", "full pqc"):
             if model.get(k) != sp:
                 ctx.mismatch(c, "extracted model %s differs from the extracted Bellman-Ford spec (contradicts "
                                 "dijkstra_pq_correct/dijkstra_fib_correct/dijkstra_fib_concrete_correct): %r"
                              % (k, str(model.get(k))[:120]))
         if c["lm"]:
-            for k in ("land pq0", "land fib0", "land fib1", "land fibc"):
+            for k in ("land pq0", "land fib0", "land fib1", "land fibc", "land pqc"):
                 if model.get(k) != landsp:
                     ctx.mismatch(c, "extracted model %s differs from sp_landmarks (contradicts landmark_row)" % k)
             if model.get("landold fib0") != landsp:
@@ -853,10 +875,11 @@ def evaluate_sp(ctx, exes, cases, stats, shrink=True):
                                   "landmark matrix: " + first_diff(land, landsp))
                 broken = clauses_broken(c, full, land, sp)
                 why = ("compute_shortest_distances_matrix (%s overload; configurations %s) is not the shortest-path "
-                       "matrix: %s%s" % ("first" if (prob or not ok_full) else "landmark",
-                                         ", ".join(("%s/1 thread traced" % k[0]) if k[1] == "trace" else
-                                                   ("%s/%s threads" % k) for k in which), detail,
-                                         ("; clauses broken: " + "; ".join(broken)) if broken else ""))
+                       "matrix: %s%s%s" % ("first" if (prob or not ok_full) else "landmark",
+                                           ", ".join(("%s/1 thread traced" % k[0]) if k[1] == "trace" else
+                                                     ("%s/%s threads" % k) for k in which), detail,
+                                           (" (lengths in units of 2^%d)" % -s) if (s := c.get("scale", 0)) else "",
+                                           ("; clauses broken: " + "; ".join(broken)) if broken else ""))
                 cc = c
                 if shrink and len(ctx._violations) < 2:
                     cc = shrink_sp(ctx, exes, c, lambda x: sp_fails(ctx, exes, x, only=which[:1]))
@@ -877,7 +900,9 @@ def evaluate_sp(ctx, exes, cases, stats, shrink=True):
             r = obs[ci].get((b, "trace"))
             if not r or r["crash"] or r.get("skipped"):
                 continue
-            for tag, mtag in (("trace", "trace fibc"), ("ltrace", "ltrace fibc")):
+            # each build against the model that contains ITS queue (Fibonacci heap of C16 / binary heap of libstdc++)
+            for tag, mtag in ((("trace", "trace fibc"), ("ltrace", "ltrace fibc")) if b == "fib" else
+                              (("trace", "trace pqc"), ("ltrace", "ltrace pqc"))):
                 if tag not in r["tags"] or not isinstance(model.get(mtag), list):
                     continue
                 stats["traces"] += 1
@@ -1568,7 +1593,16 @@ def run(ctx):
             "dyadic_fraction_weights": sum(1 for c in sp_cases if c.get("scale", 0) > 0),
             "metric_weights": sum(1 for c in sp_cases if c.get("metric")),
             "tie_free": sum(1 for c in sp_cases if c.get("tiefree")),
-            "K0": sum(1 for c in sp_cases if c["nbrs"] and not c["nbrs"][0])}
+            "K0": sum(1 for c in sp_cases if c["nbrs"] and not c["nbrs"][0]),
+            "mixed_magnitudes_in_one_table": sum(1 for c in sp_cases if c.get("mixmag"))}
+    mag_hist = {}
+    for c in allc:
+        if c.get("kind") == "iso" or c.get("kind") == "big":
+            e = c.get("mag", 0)
+        else:
+            e = -c.get("scale", 0)
+        key = "%s: weights x 2^%d" % ("embed()" if c.get("kind") == "iso" else "sp", e)
+        mag_hist[key] = mag_hist.get(key, 0) + 1
     ctx.finish(
         evaluations=n, distinct_nontrivial=len(distinct),
         rule="evaluations = matrices returned by the real routines and validated by the extracted decision procedure "
@@ -1579,7 +1613,8 @@ def run(ctx):
         samples=[{(k if k not in ("w", "T") or len(v) <= 4 else k + " (first 4 of %d rows)" % len(v)):
                   (v if k not in ("w", "T") else v[:4]) for k, v in strip(c).items()}
                  for c in (sp_cases[:2] + sp_cases[12:14] + iso_cases[:2])],
-        histogram={"generators": hist, "N": size_hist, "features": feat, "proof_case_splits_exercised": branches,
+        histogram={"generators": hist, "N": size_hist, "features": feat, "magnitudes": mag_hist,
+                   "proof_case_splits_exercised": branches,
                    "stats": stats,
                    "search_phase_cases": searched, "threads": list(THREADS), "builds": list(BUILDS)},
         trusted_base=TRUSTED, assumptions=ASSUMPTIONS,
